@@ -80,20 +80,21 @@ func fNewReader(data []byte, cut int, err error, salt uint64) *fReader {
 }
 
 type fEnv struct {
-	c       *fCase
-	ep      *fEPInfo
-	ar      []byte // the uncompressed tar stream the entry point consumes (empty for pure copy entry points)
-	feed    []byte // the bytes actually fed (gzip of ar for gz-* faults)
-	baseAr  []byte
-	recs    []fRec
-	trailer int
-	end     int // end of the last record's data (unpadded)
-	srcInfo archive.CopyInfo
-	i0, p0  int
-	refI    int
-	refP    int
-	refTree string
-	out     *fOut
+	c          *fCase
+	ep         *fEPInfo
+	ar         []byte // the uncompressed tar stream the entry point consumes (empty for pure copy entry points)
+	feed       []byte // the bytes actually fed (gzip of ar for gz-* faults)
+	memberEnds []int  // gzm-*: offsets in feed at which a gzip member ends
+	baseAr     []byte
+	recs       []fRec
+	trailer    int
+	end        int // end of the last record's data (unpadded)
+	srcInfo    archive.CopyInfo
+	i0, p0     int
+	refI       int
+	refP       int
+	refTree    string
+	out        *fOut
 }
 
 func runFaultsJob(j *Job, res *JobResult) {
@@ -167,7 +168,7 @@ func runFaultsJob(j *Job, res *JobResult) {
 		e.enumFS()
 	case strings.HasPrefix(c.Fault, "rd-"):
 		e.enumStream()
-	case strings.HasPrefix(c.Fault, "gz-"):
+	case strings.HasPrefix(c.Fault, "gz-"), strings.HasPrefix(c.Fault, "gzm-"):
 		e.enumGz()
 	default:
 		out.Setup = "unknown fault kind " + c.Fault
@@ -287,6 +288,31 @@ func (e *fEnv) prepare() error {
 		if len(e.recs) > 0 {
 			e.end = e.recs[len(e.recs)-1].BodyEnd
 		}
+	}
+	if strings.HasPrefix(c.Fault, "gzm-") {
+		// one gzip member per tar entry (as pigz -i or eStargz write them): every member boundary is also an
+		// entry boundary, so a decompressor that is fed a prefix ending there reports a clean end
+		var b bytes.Buffer
+		prev := 0
+		e.memberEnds = nil
+		cutAt := []int{}
+		for _, rc := range e.recs {
+			if !rc.Meta && rc.Next > prev {
+				cutAt = append(cutAt, rc.Next)
+			}
+		}
+		cutAt = append(cutAt, len(e.ar))
+		for _, q := range cutAt {
+			if q <= prev || q > len(e.ar) {
+				continue
+			}
+			zw := gzip.NewWriter(&b)
+			zw.Write(e.ar[prev:q])
+			zw.Close()
+			prev = q
+			e.memberEnds = append(e.memberEnds, b.Len())
+		}
+		e.feed = b.Bytes()
 	}
 	return nil
 }
@@ -756,12 +782,15 @@ func (e *fEnv) enumStream() {
 // enumGz: the compressed input fails after n bytes.
 func (e *fEnv) enumGz() {
 	c := e.c
-	kind := strings.TrimPrefix(c.Fault, "gz-")
+	kind := strings.TrimPrefix(strings.TrimPrefix(c.Fault, "gzm-"), "gz-")
 	ferr := fErrOf(kind)
 	L := len(e.feed)
 	set := map[int]bool{}
 	r := &Rng{s: c.Salt}
 	fAddCut(set, L, 0, 1, 2, 3, 4, 9, 10, 11, 12, 18, L)
+	for _, m := range e.memberEnds {
+		fAddCut(set, L, m-1, m, m+1)
+	}
 	for i := 1; i <= 12; i++ {
 		fAddCut(set, L, L-i)
 	}
